@@ -96,6 +96,10 @@ func (h *inFlightRequestsHandler) onOutgoingFrameEnqueued(f *frame.Frame) (InFli
 			return inFlight, nil
 		}
 	}
+	if managedStreamId {
+		// the send is refused: give the borrowed stream id back, otherwise it is lost forever
+		_ = h.releaseStreamId(streamId)
+	}
 	return nil, err
 }
 
@@ -132,6 +136,12 @@ func (h *inFlightRequestsHandler) addInFlight(streamId int16, managedStreamId bo
 	defer h.inFlightLock.Unlock()
 	if h.isClosed() {
 		return nil, fmt.Errorf("%v: handler closed", h)
+	}
+	// re-check under the write lock: the checks done by the caller under the read lock may be stale
+	if len(h.inFlight) >= h.maxInFlight {
+		return nil, fmt.Errorf("%v: too many in-flight requests: %v", h, h.maxInFlight)
+	} else if _, found := h.inFlight[streamId]; found {
+		return nil, fmt.Errorf("%v: stream id already in use: %d", h, streamId)
 	}
 	h.inFlight[streamId] = inFlight
 	return inFlight, nil
